@@ -19,6 +19,8 @@ THEOREMS = {
         'RsomeV.C08.cone_dual_weak',
         'RsomeV.C08.exp_dual_weak',
     ],
+    'RsomeV.Props.C02Conic': ['RsomeV.C02Conic.soc_strong_duality', 'RsomeV.C02Conic.coneDual_strong', 'RsomeV.C02Conic.coneDual_strong_attained',
+                              'RsomeV.C02Conic.compact_layout_needs_free_tails'],
 }
 RULE = ("random deterministic / ro models built through the public API with every bound pattern per variable "
         "(free, >=0, <=0, finite lower, finite upper, both, fixed zero, fixed non-zero), <=, >=, == rows, "
